@@ -78,6 +78,7 @@ pub fn select_suites<'a>(all: &'a [Box<dyn suite::Suite>], sel: &str, seed: u64)
         "full" => all.iter().map(|s| s.as_ref()).collect(),
         "identity" => all.iter().filter(|s| s.ksf_kind() == "identity").map(|s| s.as_ref()).collect(),
         "argon2" => all.iter().filter(|s| s.ksf_kind() == "argon2").map(|s| s.as_ref()).collect(),
+        "zst" => all.iter().filter(|s| s.ksf_kind() == "zst").map(|s| s.as_ref()).collect(),
         list => all
             .iter()
             .filter(|s| list.split(',').any(|p| s.name() == p || (p.len() > 3 && s.name().contains(p))))
